@@ -44,8 +44,15 @@ pub fn check(t: &Trace<'_>, out: &mut CaseOut) -> bool {
         }
     }
     if !matches!(cop.outcome, Outcome::Ok(_)) {
-        // reconnecting itself failed: C12's business, nothing to drain here
+        // reconnecting itself failed: C12's business in general, nothing to drain here. One case
+        // is C16's as well: the session holds accepted operations and can never get a connection
+        // again although its CONNECT would fit a buffer it has (the C12 known finding - arena
+        // occupied and receive buffer smaller than the CONNECT - is the documented exception)
         out.count("continuations_without_connection", 1);
+        let held = cop.snap_before.as_ref().is_some_and(|s| !s.tx.retained.is_empty() || !s.tx.release.is_empty());
+        if cop.outcome == Outcome::Err(ErrRepr::BufferTooSmall) && held && !super::c12::rx_smaller_than_connect(t, conn) {
+            out.violations.push(viol("C16", "C16/cannot-reconnect-although-the-connect-fits", format!("the benign continuation's connect() returned BufferTooSmall with operations still held (retained {:?}); the receive buffer of {} bytes could have taken the CONNECT: the session can never resume and its operations never complete", cop.snap_before.as_ref().map(|s| s.tx.retained.iter().map(|e| (e.packet_id, e.len)).collect::<Vec<_>>()), t.log.cfg.rx)));
+        }
         return false;
     }
     let snap0 = cop.snap_before.as_ref();
